@@ -30,6 +30,7 @@ HARNESS_MODULES = {
     'C12': ['c12_vectors'],
     'C13': ['c13_purity'],
     'C14': ['c14_serial'],
+    'C18': ['c18_spelling'],
     'C15': ['c15_ja3'],
     'C16': ['c07_ssh:shards_c16'],
     'C17': ['c17_version'],
